@@ -85,6 +85,25 @@ def install_tracing():
 
     SimulationFixedTimes.pre_computation = pre_computation
     SimulationFixedTimes._rv_traced = True
+    # every uniform variate handed to a consumer (coupling decisions, samplers): record-only wrapper at class level; a value handed out
+    # twice means two consumers were served the same variate (numpy never repeats a double within a run)
+    from rpylib.distribution.univariate.uniform import Uniform
+
+    orig_sample = Uniform.sample
+
+    def sample(self, size=1):
+        out = orig_sample(self, size)
+        path = os.environ.get("RV_C08_EVENTS")
+        if path:
+            vals = np.atleast_1d(np.asarray(out, dtype=float)).reshape(-1)
+            fd = os.open(path, os.O_WRONLY | os.O_APPEND | os.O_CREAT, 0o644)
+            try:
+                os.write(fd, (json.dumps({"pid": os.getpid(), "kind": "uniform", "vals": [v.hex() for v in vals.tolist()]}) + "\n").encode())
+            finally:
+                os.close(fd)
+        return out
+
+    Uniform.sample = sample
 
 
 def install_seed_tracing():
